@@ -35,6 +35,15 @@ CHECKS = {
  "C08": ("token-kernel", S4TECH + "; failing-resource faults and shared error objects",
          "Seeded search over resource outcomes {value, overridden status, ErrorResponse with any subset of fields, plain error, panic, typed-nil entity} x method kinds x 1-4 concurrent callers sharing error objects: error responses arrive field-equal with the right HTTP status and header, other failures become failure statuses carrying the message, never a crashed connection or a success; returned error objects are unchanged; success statuses follow the protocol defaults. Sampled.",
          S4NOTE, "§4 C08"),
+ "C09": ("map-order-seam", "deterministic simulation of Go map iteration order: every range-over-map site of the v2 module is rewritten (build overlay) to iterate in a permutation drawn from the seeded choice stream; each call is serialized end to end under several permutations and key supply orders and compared byte for byte",
+         "Seeded search over (call, arguments, reply) x map-order permutations at all 46 range-over-map sites x batch key supply orders: request line, query, headers and body and the response headers and body are byte-identical in every execution; JSON object keys, query parameter names and batch ids are in ascending order (checked with encoding/json and plain string splitting). Sampled.",
+         S4NOTE + " Requests are handed to the handler in-process (no scheduler involved: the only nondeterminism here is iteration order).", "§4 C09"),
+ "C12": ("genfs-processes", "deterministic simulation of the generator as OS processes: map iteration order from a seeded stream, file-system calls through a fault-injecting shim; trees compared byte for byte",
+         "Determinism (every family / small / checked-in manifest regenerated in fresh processes under drawn map orders is byte-identical to the canonical-order tree), regeneration equivalence (checked-in v2/restlidata *.gr.go = what the current generator produces from the checked-in manifest), convergence of regeneration over crashed or half-cleaned directories; the binding family generated by the current generator compiles (it is the code every S4 check builds). Totality over the schema grammar is not claimed. Sampled.",
+         "real: cmd.GenerateCode and codegen/* in one OS process per run; stub: os call path (sim/simos), map order (sim/simrt). Map ranges with pointer keys keep Go's order (none today, counted).", "§4 C12"),
+ "C20": ("genfs-processes", "deterministic simulation with fault injection of the generator's file-system path: ownership monitor evaluated at every destructive call, seeded errors / torn writes / crashes at drawn call ordinals, workload continues after restart",
+         "Seeded search over directory trees (depth <= 3, look-alike names, target absent or '.') x workloads of clean / generate processes x one injected fault (EACCES, ENOSPC, EIO, torn write, crash before / in / after a call): every remove / overwrite / create targets a path the generator owns or an empty directory at that instant, every foreign file stays byte-identical and reachable, clean is idempotent, a successful generate equals an undisturbed one, an injected error is never swallowed into an incomplete success. Sampled.",
+         "real: CleanTargetDir, WriteJenFile, GenerateCode as OS processes on a scratch directory; stub: os / ioutil call path of packages cmd and codegen/utils. Crash = exit at a call boundary or inside a torn write (the generator never syncs).", "§4 C20"),
  "C14": ("token-kernel", S4TECH + "; twin execution (tunnelling off vs threshold around the call's own query length)",
          "Twin execution of every call with thresholds {1, len-1, len, len+1, 10^6, off}: wire shape on both sides of the threshold, identical request view for routing/filters/resource after de-tunnelling, identical client results; damaged tunnelled requests -> 400 untouched. Sampled.",
          S4NOTE, "§4 C14"),
@@ -77,8 +86,12 @@ def main():
             "add_only": True,
         },
         "engines": [
-            {"name": "token-kernel", "path": "/verif/sim/kern", "serves_properties": sorted(CHECKS),
+            {"name": "token-kernel", "path": "/verif/sim/kern", "serves_properties": sorted(k for k, v in CHECKS.items() if v[0] == "token-kernel"),
              "kind_free_text": "deterministic simulator, back end A: real goroutines, one token, every decision from a seeded choice stream; replay + choice-list minimisation in fresh processes (cmd/vcheck)"},
+            {"name": "map-order-seam", "path": "/verif/sim/simrt", "serves_properties": ["C09", "C12", "C19", "C20"],
+             "kind_free_text": "build-time rewrite of every range-over-map site (cmd/instrument) + run-time permutation from the choice stream"},
+            {"name": "genfs-processes", "path": "/verif/cmd/gensim", "serves_properties": ["C12", "C20"],
+             "kind_free_text": "the code generator as simulated OS processes over sim/simos (fault-injecting, monitored os shim) and sim/simrt"},
         ],
         "checks": checks,
         "notes": "driver: ./check <id> [quick|thorough] [--replay file]; honours VERIF_SEED and VERIF_TIER; exit 2 = build/harness trouble (never a violation). known_findings.txt lists repaired defects (fix: commits in /repo) and open findings.",
